@@ -4,7 +4,7 @@ from harness.pipeline import COQ_HEADER, COQ_RUNNER, COQ_TYPES, SHARD, coq_case,
 
 PROP = 'C10'
 PROPS_FILE = 'Props/C10.v'
-RULE = ('compute_features on generated signals at 8 sampling rates; metamorphic replays sig*2^k (k in -20..20) and '
+RULE = ('compute_features on generated signals at 8 sampling rates; metamorphic replays sig*2^k (k in -100..100, so that absolute tolerances hidden in the code show) and '
         '(c*fs, c*f_range) for c in {2, 4, 1/2}; each base table compared with the Coq pipeline model (which has no fs '
         'argument at all); non-trivial = >= 3 rows and a label of each value')
 ASSUMPTIONS = ['power-of-two amplitude factors (exact in binary64 absent over/underflow)',
@@ -16,7 +16,7 @@ def cases(rng, tier):
     n = 90 if tier == 'quick' else 900
     out = []
     for _ in range(n):
-        out.append(pipeline.gen_case(rng, tier, extra={'scale_pow': rng.choice([-20, -7, -1, 1, 3, 10, 20]),
+        out.append(pipeline.gen_case(rng, tier, extra={'scale_pow': rng.choice([-100, -60, -40, -30, -20, -7, -1, 1, 3, 10, 20, 40, 100]),
                                                         'fs_mult': rng.choice([2, 4, 0.5])}))
     return out
 
